@@ -35,11 +35,17 @@ ARName(r) == "A" \o Str(100 + r)
 RName(r) == "R" \o Str(r)
 
 \* ---- documented key mapping (ingest/osm.go osmTagMapping), restricted to the keys of the model
-MapKey(k) == CASE k = "highway" -> "#highway" [] k = "wikidata" -> "@wikidata" [] OTHER -> k
+KeyTable == ("amenity" :> "#amenity") @@ ("barrier" :> "#barrier") @@ ("boundary" :> "#boundary") @@ ("bridge" :> "#bridge") @@
+            ("building" :> "#building") @@ ("highway" :> "#highway") @@ ("landuse" :> "#landuse") @@ ("leisure" :> "#leisure") @@
+            ("natural" :> "#natural") @@ ("network" :> "#network") @@ ("place" :> "#place") @@ ("railway" :> "#railway") @@
+            ("route" :> "#route") @@ ("shop" :> "#shop") @@ ("tourism" :> "#tourism") @@ ("water" :> "#water") @@
+            ("waterway" :> "#waterway") @@ ("fhrs:id" :> "@fhrs:id") @@ ("wikidata" :> "@wikidata") @@ ("wikipedia" :> "@wikipedia")
+MapKey(k) == IF k \in DOMAIN KeyTable THEN KeyTable[k] ELSE k
 \* OSM tags are a function from OSM keys to value or "-"; the result is a function over Keys (the mapped keys)
 \* "point" and "path" are ordinary keys in OSM, but b6 keeps a feature's geometry under tags with exactly these keys:
 \* the geometry wins, the OSM tag of that key never shows (they are outside Keys, so MapTags drops them)
-OSMKeys == {"highway", "wikidata", "name", "type", "point", "path"}
+\* the whole documented table, plus keys that are not in it (one with a colon, like the mapped "fhrs:id")
+OSMKeys == DOMAIN KeyTable \cup {"name", "type", "point", "path", "addr:street", "fhrs:authority"}
 MapTags(t) == [k \in Keys |-> LET from == {o \in OSMKeys : MapKey(o) = k} IN
                               IF from = {} THEN None ELSE t[CHOOSE o \in from : TRUE]]
 
